@@ -33,9 +33,14 @@ def nonlin_cases(ctx):
              ('Sigmoid', lambda: T.Sigmoid(), True, [(0.0, +1), (1.0, -1)], 0.5),
              ('Logit', lambda: T.Logit(), False, [(0.0, +1), (1.0, -1)], 0.5),
              ('CauchyCDF', lambda: T.nonlinearities.CauchyCDF(), True, [(0.0, +1), (1.0, -1)], 0.5),
-             ('CauchyCDFInverse', lambda: T.nonlinearities.CauchyCDFInverse(), False, [(0.0, +1), (1.0, -1)], 0.5)]
+             ('CauchyCDFInverse', lambda: T.nonlinearities.CauchyCDFInverse(), False, [(0.0, +1), (1.0, -1)], 0.5),
+             # non-default constructor arguments; an eps below single-precision resolution is only meaningful for double-precision data
+             ('Sigmoid/eps1e-10', lambda: T.Sigmoid(eps=1e-10), True, [(0.0, +1), (1.0, -1)], 0.5),
+             ('Sigmoid/T0.5,eps1e-9', lambda: T.Sigmoid(temperature=0.5, eps=1e-9), True, [(0.0, +1), (1.0, -1)], 0.5),
+             ('Logit/eps1e-10', lambda: T.Logit(eps=1e-10), False, [(0.0, +1), (1.0, -1)], 0.5),
+             ('Sigmoid/eps1e-3', lambda: T.Sigmoid(eps=1e-3), True, [(0.0, +1), (1.0, -1)], 0.5)]
     for name, build, inverse, bounds, filler in specs:
-        for prec in ('f64', 'f32'):
+        for prec in (('f64',) if 'eps1e-10' in name or 'eps1e-9' in name else ('f64', 'f32')):
             dt = _dtype(prec)
             for b, inside_dir in bounds:
                 bt = torch.tensor(b, dtype=dt)
@@ -94,7 +99,7 @@ def _correspondence_once(ctx, rep=0):
         t = build()
         if prec == 'f64':
             t = t.double()
-        e = R.Entry(name, 'nonlin', build, [3], extra={'cls': name})
+        e = R.Entry(name, 'nonlin', build, [3], extra={'cls': name.split('/')[0]})
         k, y, ld = R.impl_call(t, x, None, inverse)
         reqs.append(R.model_request(e, t, x, None, inverse))
         metas.append(('nonlin', name, inverse, prec, b, kind, pos, x, k, y))
@@ -136,12 +141,19 @@ def search(ctx):
         if prec == 'f64':
             t = t.double()
         k, y, ld = R.impl_call(t, x, None, inverse)
+        # a module left in single precision and fed double-precision data is ordinary use too
+        if prec == 'f64' and kind in ('on', 'in1') and name.split('/')[0] in ('Sigmoid', 'Logit'):
+            k32, y32, l32 = R.impl_call(build(), x, None, inverse)
+            if k32 != 'ok' or not torch.isfinite(y32).all() or not torch.isfinite(l32).all():
+                ctx.fail('in-domain double-precision input failed on a module left in single precision (%s / non-finite)' % k32,
+                         {'transform': name, 'inverse': inverse, 'prec': 'f64 data, f32 module', 'atom': kind, 'x': x.reshape(-1).tolist()},
+                         match={'class': name.split('/')[0], 'symptom': 'in-domain-fails', 'prec': 'mixed'})
         outside = kind in ('out1', 'far') or (kind == 'on' and name in ('Exp', 'Tanh'))
         case = {'transform': name, 'inverse': inverse, 'prec': prec, 'atom': kind, 'x': x.reshape(-1).tolist()}
         if outside and k != 'InputOutsideDomain':
-            ctx.fail('out-of-domain input not rejected (got %s)' % k, case, match={'class': name, 'symptom': 'not-rejected'})
+            ctx.fail('out-of-domain input not rejected (got %s)' % k, case, match={'class': name.split('/')[0], 'symptom': 'not-rejected'})
         if not outside and (k != 'ok' or not torch.isfinite(y).all() or not torch.isfinite(ld).all()):
-            ctx.fail('in-domain input failed (%s / non-finite)' % k, case, match={'class': name, 'symptom': 'in-domain-fails', 'prec': prec})
+            ctx.fail('in-domain input failed (%s / non-finite)' % k, case, match={'class': name.split('/')[0], 'symptom': 'in-domain-fails', 'prec': prec})
     for (fam, tails, prec, mag, inverse, kind, pos, x, box, K) in spline_cases(ctx):
         dt = _dtype(prec)
         for regime in ('zeros', 'normal'):
